@@ -16,6 +16,7 @@
   exactness is C10).
 -/
 import CTM.Lemmas.Selection
+import CTM.Generated.SelectionConsts
 
 namespace CTM.C12
 open CTM.Selection
@@ -111,6 +112,60 @@ theorem desperate_all_taken {n nG : Nat} {pairs : List Pair} {st : St}
   preState_takes_desperate hp h
 
 example : (preState 3 sampleThin.pairs 2).map (·.chosen) = .ok [0, 1, 2] := by decide
+
+/-! ## the block loop of `create_utility_array` -/
+
+/-- `create_utility_array` visits the parent's pairs in blocks
+(`for pair0 in range(0, n_taxon, batch_size)`): for EVERY block size ≥ 1 the
+blocks partition the pair list — no block border and no trailing partial block
+is lost or visited twice … -/
+theorem block_slices_cover {α : Type} (bs : Nat) (hbs : 0 < bs) (l : List α) :
+    (blockSlices bs l).flatten = l := by
+  unfold blockSlices
+  suffices h : ∀ (fuel : Nat) (l : List α), l.length ≤ fuel →
+      (blockSlicesAux fuel bs l).flatten = l from h _ l (Nat.le_refl _)
+  intro fuel
+  induction fuel with
+  | zero =>
+    intro l hl
+    have : l = [] := List.length_eq_zero_iff.mp (by omega)
+    subst this; rfl
+  | succ fuel ih =>
+    intro l hl
+    simp only [blockSlicesAux]
+    cases l with
+    | nil => rfl
+    | cons x xs =>
+      simp only [List.isEmpty_cons, Bool.false_eq_true, if_false, List.flatten_cons]
+      rw [ih ((x :: xs).drop bs) (by simp only [List.length_drop, List.length_cons] at hl ⊢; omega),
+        List.take_append_drop]
+
+/-- … hence the utility accumulated block by block is the utility over all the
+parent's pairs, and the initial arrays the model builds with the code's block
+size (`utilityBlock gbSize nGenes`) are those of the whole-table sum on which
+`inv` … `indep` are proved. -/
+theorem utility_blocks (bs : Nat) (hbs : 0 < bs) (slots : List Slot) (g : Nat) (nGenes : Nat)
+    (pairs : List Pair) :
+    initUtilB bs slots g = initUtil slots g ∧
+    initStateB bs nGenes pairs = initStateWhole nGenes pairs ∧
+    initState nGenes pairs = initStateWhole nGenes pairs :=
+  ⟨initUtilB_eq bs hbs slots g, initStateB_eq bs hbs nGenes pairs, initState_eq_whole nGenes pairs⟩
+
+example : blockSlices 2 [1, 2, 3, 4, 5] = [[1, 2], [3, 4], [5]] := by decide
+example : utilityBlock 10 200000 = 17896 := by decide
+
+/-- the block arithmetic re-extracted from the current source
+(`CTM/Generated/SelectionConsts.lean`, rewritten by `./check C12`) is the one
+the model implements: `gb_size`, `byte_size`, `batch_size`, the loop header and
+the slice end. -/
+theorem block_constants_pinned :
+    CTM.Generated.SelectionConsts.gbSize = gbSize ∧
+    CTM.Generated.SelectionConsts.byteSizeExpr = "gb_size * 1024 ** 3" ∧
+    CTM.Generated.SelectionConsts.batchSizeExpr =
+      "max(1, np.round(byte_size / (3 * n_genes)).astype(int))" ∧
+    CTM.Generated.SelectionConsts.blockLoop = "pair0 in range(0, n_taxon, batch_size)" ∧
+    CTM.Generated.SelectionConsts.pair1Expr = "min(n_pairs, pair0 + batch_size)" := by
+  decide
 
 /-! ## terminates -/
 
